@@ -307,6 +307,8 @@ func checkAssemblerOrder(c *core.Ctx, pkg, rp string) {
 		r10 := c.Rule(rp+".10", "T", "a list built together with the byte count of its elements is never emptied without zeroing the count")
 		checkCoupledAccumulators(c, r10, pkg)
 	}
+	r11 := c.Rule(rp+".11", "T", "page queue links are stored in pairs: x.next = y together with y.prev = x")
+	checkPairedLinks(c, r11, pkg)
 	r9 := c.Rule(rp+".9", "T", "a delivered batch is not delivered again: on every path (across calls) from a delivery of a.ret to the next append into a.ret the batch is emptied")
 	checkBatchReset(c, r9, pkg)
 	r8 := c.Rule(rp+".8", "T", "a recycled page carries nothing over: every per-use field of a page that the package ever stores a value into is reset by pageCache.next or stored by the function that takes the page from it")
@@ -350,6 +352,7 @@ func checkAssemblerOrder(c *core.Ctx, pkg, rp string) {
 			r1.Check(modulus == 1<<32, key+"/Add-modulus", p.Pos(add.Pos()), "Add reduces modulo 2^32", fmt.Sprintf("Add reduces modulo %d, TCP sequence numbers live modulo 2^32", modulus))
 			// wrap constants in Difference: `v + K` where v is a parameter
 			n := 0
+			correctedParams := map[ssa.Value]bool{}
 			core.Instrs(dif, func(ins ssa.Instruction) {
 				bo, ok := ins.(*ssa.BinOp)
 				if !ok || bo.Op != token.ADD {
@@ -366,6 +369,26 @@ func checkAssemblerOrder(c *core.Ctx, pkg, rp string) {
 					return
 				}
 				n++
+				// the operand that is corrected is the one tested as lying in the low quarter
+				var corrected ssa.Value = bo.X
+				if !isParam(dif, bo.X) {
+					corrected = bo.Y
+				}
+				lowTested := false
+				for _, dc := range core.DomConds(ins.Block()) {
+					cb, ok := dc.V.(*ssa.BinOp)
+					if !ok || !dc.Truth {
+						continue
+					}
+					if (cb.Op == token.LSS || cb.Op == token.LEQ) && cb.X == corrected {
+						lowTested = true
+					}
+					if (cb.Op == token.GTR || cb.Op == token.GEQ) && cb.Y == corrected {
+						lowTested = true
+					}
+				}
+				correctedParams[corrected] = true
+				r1.Check(lowTested, fmt.Sprintf("%s/Difference-wrap-side#%d", key, n), p.InstrPos(ins), "the wrapped (low-quarter) operand is the one lifted by the modulus", "the modulus is added to the operand that was tested as lying in the HIGH quarter: for a pair straddling the wrap in that direction the difference is off by 2^33, so data after the wrap is treated as far in the past or future")
 				r1.Check(k == modulus, fmt.Sprintf("%s/Difference-wrap#%d", key, n), p.InstrPos(ins), "wrap term equals the modulus of Add", fmt.Sprintf("Difference undoes a wrap by adding %d but Add reduces modulo %d: x.Difference(x.Add(n)) != n for sequence numbers around the wrap (e.g. Sequence(0xFFFFFFF0).Difference(Sequence(0xFFFFFFF0).Add(32)) = 31)", k, modulus))
 			})
 			if n == 0 {
@@ -384,7 +407,7 @@ func checkAssemblerOrder(c *core.Ctx, pkg, rp string) {
 					r1.Violate(key+"/Difference-wrap", p.Pos(dif.Pos()), "Difference does not handle wrap-around (no wrap term, no 32-bit subtraction)", nil)
 				}
 			} else {
-				r1.Check(n == 2, key+"/Difference-both-directions", p.Pos(dif.Pos()), "both wrap directions are corrected", fmt.Sprintf("%d wrap corrections found, expected one for each direction", n))
+				r1.Check(n == 2 && len(correctedParams) == 2, key+"/Difference-both-directions", p.Pos(dif.Pos()), "both wrap directions are corrected, one on each operand", fmt.Sprintf("%d wrap corrections on %d distinct operands found, expected one for each direction", n, len(correctedParams)))
 			}
 			// result is t - s (argument minus receiver)
 			for _, ret := range core.Returns(dif) {
@@ -1419,4 +1442,85 @@ func isLimitPredicate(f *ssa.Function) bool {
 		}
 	})
 	return pure && cmp
+}
+
+// checkPairedLinks (R9.11/R10.10): the page queues are doubly linked; a store
+// x.next = y with a page y is accompanied, in the same function, by a store
+// y.prev = x (and symmetrically), where y may be named directly or as x.next.
+func checkPairedLinks(c *core.Ctx, r *core.Rule, pkg string) {
+	p := c.P
+	n := 0
+	for _, fn := range pkgFunctions(p, pkg) {
+		if strings.HasSuffix(p.Pos(fn.Pos()), "_test.go") {
+			continue
+		}
+		type linkStore struct {
+			st         *ssa.Store
+			base, val  ssa.Value
+			field      string
+		}
+		var stores []linkStore
+		core.Instrs(fn, func(ins ssa.Instruction) {
+			st, ok := ins.(*ssa.Store)
+			if !ok {
+				return
+			}
+			fa, ok := st.Addr.(*ssa.FieldAddr)
+			if !ok || !isPagePtr(fa.X.Type()) {
+				return
+			}
+			nm := core.FieldOfAddr(fa).Name()
+			if nm != "next" && nm != "prev" {
+				return
+			}
+			stores = append(stores, linkStore{st, fa.X, st.Val, nm})
+		})
+		// same page value: identical / structurally equal (loads of the same field of the same page),
+		// or a load of base.field
+		same := func(v ssa.Value, w ssa.Value, viaBase ssa.Value, viaField string) bool {
+			if v == w || structEq(v, w, 0) {
+				return true
+			}
+			for _, pr := range [][2]ssa.Value{{v, w}, {w, v}} {
+				if a, ok := core.IsLoad(pr[0]); ok {
+					if fa, ok := a.(*ssa.FieldAddr); ok && (fa.X == viaBase || structEq(fa.X, viaBase, 0)) && core.FieldOfAddr(fa).Name() == viaField && pr[0] == v {
+						return true
+					}
+				}
+			}
+			return false
+		}
+		k := 0
+		for _, s := range stores {
+			if core.IsNilConst(s.val) {
+				continue
+			}
+			other := "prev"
+			if s.field == "prev" {
+				other = "next"
+			}
+			n++
+			k++
+			key := fmt.Sprintf("%s/link:%s#%d", core.FnKey(fn), s.field, k)
+			paired := false
+			for _, t := range stores {
+				if t.field != other {
+					continue
+				}
+				// t: y.other = x  where y is s.val (or s.base.field) and x is s.base
+				if same(t.base, s.val, s.base, s.field) && (t.val == s.base || structEq(t.val, s.base, 0) || same(s.base, t.val, t.base, t.field)) {
+					paired = true
+				}
+			}
+			if paired {
+				r.OK(key, p.InstrPos(s.st), "the opposite link is stored as well")
+			} else {
+				// a page that was just unlinked or is about to be linked by the caller is decided there: only definite
+				// when both pages are live queue pages, which this syntactic rule cannot tell; report when the value
+				// is a page obtained in this function (pageCache.next / a parameter being inserted)
+				r.Violate(key, p.InstrPos(s.st), "x."+s.field+" = y is stored but y."+other+" = x is not stored anywhere in this function: the queue is no longer consistently doubly linked, so a walk in the other direction skips or loses pages (buffered bytes are never delivered)", nil)
+			}
+		}
+	}
+	c.Counts[pkg+"_link_stores"] = n
 }
